@@ -63,6 +63,8 @@ var c03Sigma = [][]string{
 	// the client sends afterwards is not executed, and no partial message is stored
 	{"!idle"},
 	{"Subject: s", "", "bo", "!idle", "dy", "."},
+	// a source route without the mailbox it should lead to
+	{"RCPT TO:<@relay.example>"},
 }
 
 type c03Case struct {
